@@ -33,6 +33,10 @@ LEAPS = [41317, 41499, 41683, 42048, 42413, 42778, 43144, 43509, 43874, 44239, 4
          57204, 57754]
 
 
+class HarnessError(Exception):
+    """the harness itself is inconsistent (never an outcome of the real code)"""
+
+
 # ------------------------------------------------------------------ exact interchange
 def dy(x):
     """float -> dyadic record {m: BigInt, e: int}, exactly x = m * 2**e (m odd or 0)."""
@@ -89,7 +93,7 @@ def make_time(a):
     else:
         t = Time(j1.reshape(a["shape"]), j2.reshape(a["shape"]), format="jd", scale=a["scale"], precision=9)
     if not (np.array_equal(np.ravel(t.jd1), j1) and np.array_equal(np.ravel(t.jd2), j2)):
-        raise RuntimeError("Time two-doubles were renormalised; the event would not describe the call")
+        raise HarnessError("Time two-doubles were renormalised; the event would not describe the call")
     return t
 
 
@@ -200,7 +204,7 @@ class Session:
                 for d in xd:
                     x = 15.0 * d
                     if F(x) != 15 * F(d):
-                        raise RuntimeError("offset 15*%r is not exact" % d)
+                        raise HarnessError("offset 15*%r is not exact" % d)
                     vs.append(dy(pol(x)))
                 out["v"] = vs
                 out["degree"] = int(pol.degree())
@@ -212,8 +216,8 @@ class Session:
                 t1 = p.time_at(phi) if g is None else p.time_at(phi, guess=g)
                 out["t"] = time_recs(t1)[0]
                 return ev
-            raise RuntimeError("unknown op " + op)
-        except RuntimeError:
+            raise HarnessError("unknown op " + op)
+        except HarnessError:
             raise
         except Exception as ex:
             ev["out"] = {"raised": type(ex).__name__, "msg": str(ex)[:200]}
@@ -323,21 +327,24 @@ class PolyGen:
                             ok = False
             if ok and leap_free(int(tm[0]) - 3, int(tm[-1]) + 4):
                 return tm, dec
-        raise RuntimeError("no layout found")
+        raise HarnessError("no layout found")
 
-    def make(self, family, wide=False, n=None, ncoeff=None, probe=None):
+    def make(self, family, wide=False, n=None, ncoeff=None, probe=None, force=None):
         rnd = self.rnd
         n = n or rnd.choice([1, 1, 2, 2, 3, 3, 4, 5, 6])
         ncoeff = ncoeff or rnd.choice([2, 2, 3, 4, 5, 6, 7, 8, 9, 10, 11, 12, 12, 13, 14, 15, 15])
         for _ in range(1000):
             span = rnd.choice([10, 15, 30, 60, 90, 120, 240, 360, 720, 1440, rnd.randint(10, 1440)])
             f0 = math.exp(rnd.uniform(math.log(0.1), math.log(700.0)))
+            if force:
+                f0, span = force
+                break
             b = budget(f0, span, 2e3)
             if (b <= 0.9e-8) != (not wide):
                 continue
             break
         else:
-            raise RuntimeError("no (F0, span) found")
+            raise HarnessError("no (F0, span) found")
         kind = rnd.choice(["touch", "touch", "overlap", "ms", "apart", "mixed", "mixed"])
         tmids, tdec = self.layout(n, span, kind)
         f0dec = rnd.choice([6, 9, 12, 12, 12, 15])
@@ -492,8 +499,8 @@ class Aim:
             t = rnd.choice(self.tm)
             r = rnd.random()
             if r < 0.15:
-                x = t + self.h * F(rnd.choice([-1, 1])) * (1 - F(rnd.randint(1, 1000), 10 ** 6)) \
-                    - rnd.choice([-1, 1]) * 0      # close to an end, still inside (>= 1e-6 of the half span)
+                # close to an end, still inside (>= 1e-6 of the half span)
+                x = t + self.h * F(rnd.choice([-1, 1])) * (1 - F(rnd.randint(1, 1000), 10 ** 6))
             elif r < 0.25:
                 x = t + F(rnd.randint(-1000, 1000), 10 ** 9)          # around TMID
             elif r < 0.3:
@@ -659,7 +666,7 @@ def run_batch(events, name, timeout):
     with open(tf, "w") as f:
         json.dump(slim, f)
     try:
-        r = tlc.run("Trace_Polyco", "Trace_Polyco.cfg", workers=1, timeout=timeout, heap="3g",
+        r = tlc.run("Trace_Polyco", "Trace_Polyco.cfg", workers=1, timeout=timeout, heap="2g",
                     env={"TRACE_FILE": tf, "VERDICT_FILE": vf})
         rejected, summary = [], None
         if os.path.exists(vf):
@@ -684,26 +691,31 @@ def run_batch(events, name, timeout):
 
 
 def classify(names):
-    amb = [n for n in names if n.startswith("ambiguous:")]
-    assume = [n for n in names if n.startswith("assume-")]
+    amb = [n for n in names if n.startswith("ambiguous:") or n.startswith("note:")]
+    # assumptions of the machinery; generated texts are always polycos, so a text the specification
+    # cannot read is a deficiency of the specification, not of pulsarbat
+    assume = [n for n in names if n.startswith("assume-") or n in ("ambiguous:not-a-polyco", "ambiguous:no-table")]
+    amb = [n for n in amb if n not in assume]
     bad = [n for n in names if n not in amb and n not in assume]
     return bad, amb, assume
 
 
 def key_of(ev, bad):
+    """stable name of the failing input class:
+         from_polyco:<probe>                     texts of a probed class (negative RPHASE, NCOEFF = 1)
+         scale-not-utc:<call>:<clause>[Exc]      times given in another scale than the table's (UTC)
+         <call>:<clause>[Exc]                    everything else"""
     a = ev.get("args", {})
     meta = ev.get("meta", {})
     raised = ev.get("raised") or (ev.get("out", {}).get("raised") if isinstance(ev.get("out"), dict) else "") or ""
     k = "%s:%s" % (ev["ev"], "+".join(bad))
     if raised:
         k += "[%s]" % raised
+    if ev["ev"] == "load" and meta.get("probe"):
+        return "from_polyco:%s:%s" % (meta["probe"], k)
     sc = (a.get("times") or {}).get("scale", "utc")
     if sc != "utc":
-        k += ":scale=%s" % sc
-        if a.get("cls"):
-            k += ":" + a["cls"]
-    if meta.get("probe"):
-        k += ":" + meta["probe"]
+        return "scale-not-utc:" + k
     return k
 
 
@@ -734,6 +746,42 @@ def build_sessions(chk):
     return sessions
 
 
+def decimal_selftest(rnd, n):
+    """numerals in every spelling the reader accepts (and some it must refuse) with their exact value
+    from fractions.Fraction: a self-test of the specification's decimal reader, not of pulsarbat"""
+    evs = []
+    for i in range(n):
+        nint, nfrac = rnd.randint(0, 13), rnd.randint(0, 20)
+        ip = "".join(rnd.choice("0123456789") for _ in range(nint))
+        fp = "".join(rnd.choice("0123456789") for _ in range(nfrac))
+        sign = rnd.choice(["", "", "-", "+"])
+        dot = "." if (nfrac or rnd.random() < 0.3) else ""
+        ex = ""
+        xv = 0
+        if rnd.random() < 0.7:
+            xv = rnd.randint(-45, 20)
+            ex = rnd.choice("eEdD") + rnd.choice(["%+03d" % xv, "%d" % xv, "%+d" % xv])
+        body = ip + dot + fp
+        s = sign + body + ex
+        bad = (nint + nfrac == 0)
+        if rnd.random() < 0.08:
+            s = rnd.choice([s + "x", "e5", sign + ".", s.replace(".", ",") if "." in s else s + "e", "", "1e+", "--1", "1.2.3"])
+            bad = True
+            if s and all(c in "0123456789" for c in s):
+                bad = False
+        ev = {"ev": "decimal", "s": list(s.encode()), "bad": bad, "val": exact.rat(0), "args": {"op": "decimal", "s": s},
+              "meta": {"family": "selftest", "wide": False, "probe": None, "span": 0, "ncoeff": 0, "f0": 0.0, "n": 0}}
+        if not bad:
+            digits = (ip + fp) or "0"
+            ev["val"] = exact.rat(F(-1 if sign == "-" else 1) * F(int(digits)) * F(10) ** (xv - len(fp)) if not bad else 0)
+            try:                                            # Python's own reading of the same numeral agrees
+                assert F(s.replace("D", "e").replace("d", "e")) == exact.unrat(ev["val"])
+            except (ValueError, AssertionError) as ex_:
+                raise HarnessError("decimal self-test generator inconsistent for %r: %r" % (s, ex_))
+        evs.append(ev)
+    return evs
+
+
 def execute(sessions):
     """run every session on the real code -> list of event lists"""
     out = []
@@ -762,11 +810,22 @@ def case_of(evs, idx):
         acts.append(sub)
     if idx > 0:
         acts.append(evs[idx]["args"])
-    return {"acts": acts}
+    return {"acts": acts, "meta": evs[idx].get("meta", {})}
+
+
+def check_leap_table():
+    """LEAPS (and LeapTable of Trace_Polyco.tla) must be the leap seconds astropy/erfa knows"""
+    import erfa
+    Time = libs()["Time"]
+    have = sorted(int(round(Time("%04d-%02d-01T00:00:00" % (r["year"], r["month"]), scale="utc").mjd))
+                  for r in erfa.leap_seconds.get() if r["year"] >= 1972)
+    if have != LEAPS:
+        raise HarnessError("leap second table differs from erfa's: %r" % sorted(set(have) ^ set(LEAPS)))
 
 
 def run(chk):
     thorough = chk.tier == "thorough"
+    check_leap_table()
     # 1. the span logic, exhaustively on the lattice; the two negative models must be rejected
     r = tlc.run("MC_Polyco", "MC_Polyco_full.cfg" if thorough else "MC_Polyco_quick.cfg", timeout=2400)
     chk.mc_must_hold("MC_Polyco_" + ("full" if thorough else "quick"), r)
@@ -781,8 +840,9 @@ def run(chk):
     # 2. drive the real code
     sessions = build_sessions(chk)
     traces = execute(sessions)
+    traces.append(decimal_selftest(random.Random(chk.seed + 17), 400 if thorough else 80))
     # 3. TLC decides every event; sessions are packed into batches, batches run in parallel
-    target = 260 if thorough else 90          # samples (polynomial evaluations) per batch, roughly
+    target = 150 if thorough else 35          # samples (polynomial evaluations) per batch, roughly
     batches, cur, w = [], [], 0
     for evs in traces:
         cost = sum(len(e.get("t", [])) if isinstance(e.get("t"), list) else 1 for e in evs) + 5
@@ -793,7 +853,7 @@ def run(chk):
         w += cost
     if cur:
         batches.append(cur)
-    counts, amb_counts, kinds = {}, {}, {}
+    counts, amb_counts, kinds, amb_examples = {}, {}, {}, []
     nev = 0
 
     def job(b):
@@ -821,6 +881,9 @@ def run(chk):
             bad, amb, assume = classify(rej[gi])
             for n in amb:
                 amb_counts[n] = amb_counts.get(n, 0) + 1
+                if n.startswith("ambiguous:") and len(amb_examples) < 8:
+                    amb_examples.append({"event": e["ev"], "why": n, "family": e["meta"]["family"], "wide": e["meta"]["wide"],
+                                         "F0_Hz": e["meta"]["f0"], "span_min": e["meta"]["span"], "ncoeff": e["meta"]["ncoeff"]})
             if assume:
                 chk.machinery_errors.append("assumption %s failed for event %s" % (assume, json.dumps(e.get("args"))[:400]))
             if bad:
@@ -832,14 +895,39 @@ def run(chk):
                     e["meta"]["f0"], e["meta"]["span"], e["meta"]["ncoeff"], e["meta"]["n"], e["meta"]["family"])
                 chk.violation(key_of(e, bad), desc, case_of(evs, i))
     chk.validated += nev
-    for evs in traces[:2] + traces[-2:]:
-        for e in evs[2:4]:
-            chk.sample({"event": e["ev"], "args": {k: v for k, v in e["args"].items() if k != "text"},
-                        "result": json.loads(json.dumps(e.get("out", e.get("raised")), default=str))
-                        if e["ev"] != "call" else {"raised": e["out"]["raised"], "n": len(e["out"].get("ph", []))}})
+    def human(e):
+        """an event in plain numbers (floats, for reading only; the trace carries exact values)"""
+        a, out = e["args"], e["out"]
+        d = {"event": e["ev"], "polyco": e["meta"]["family"], "F0_Hz": e["meta"]["f0"], "span_min": e["meta"]["span"],
+             "ncoeff": e["meta"]["ncoeff"], "entries": e["meta"]["n"]}
+        if a.get("times"):
+            d["times_mjd_%s" % a["times"]["scale"]] = [unhx(x) - 2400000.5 + unhx(y) for x, y in
+                                                     zip(a["times"]["jd1"][:3], a["times"]["jd2"][:3])]
+        if "n" in a and e["ev"] == "f0":
+            d["n"] = a["n"]
+        if e["ev"] == "time_at":
+            d["phase"] = "%d%+.12f" % (a["phi"]["i"], unhx(a["phi"]["f"]))
+        if out["raised"]:
+            d["real_result"] = "raised " + out["raised"]
+        elif e["ev"] == "call":
+            d["real_result"] = ["%d%+.12f" % (exact.unbig(p["i"]), float(exact.unbig(p["f"]["m"]) * F(2) ** p["f"]["e"]))
+                                for p in out["ph"][:3]]
+        elif e["ev"] == "f0":
+            d["real_result"] = [float(exact.unbig(v["m"]) * F(2) ** v["e"]) for v in out["v"][:3]]
+        elif e["ev"] == "time_at":
+            t = out["t"]
+            d["real_result_mjd_utc"] = float(sum(exact.unbig(t[k]["m"]) * F(2) ** t[k]["e"] for k in ("u1", "u2")) - F(4800001, 2))
+        d["verdict"] = "accepted by Trace_Polyco"
+        return d
+    for evs in traces[:3]:
+        for gi, e in enumerate(evs):
+            if e["ev"] in ("call", "f0", "time_at") and len(chk.samples) < 6 and \
+                    not any(x["event"] == e["ev"] and x["polyco"] == e["meta"]["family"] for x in chk.samples):
+                chk.sample(human(e))
     chk.notes["events_by_kind"] = counts
     chk.notes["events_by_family"] = kinds
     chk.notes["ambiguous"] = amb_counts
+    chk.notes["ambiguous_examples"] = amb_examples
     chk.notes["polyco_texts"] = len(sessions)
     chk.notes["tolerances"] = {"phase": "1e-8 cycle (events beyond the float64 budget of the code's poly(dt) are 'ambiguous:double-limit')",
                                "f0": "1e-9 relative + 1e-12 * SUM|terms|", "time_at": "1e-8 cycle + f * 2^-49 day",
@@ -857,7 +945,7 @@ def replay(doc):
     evs = []
     for a in acts:
         ev = s.perform(a)
-        ev["meta"] = {}
+        ev["meta"] = doc["case"].get("meta", {})
         evs.append(ev)
         if a["op"] == "load" and ev["raised"]:
             break
